@@ -114,6 +114,9 @@ def shape(k, i):
         C = 'Rn' + s
         return [D.cls(C, [D.ctor(C), D.method(single(T('string')), 'string_serialize', [], 1),
                           D.static(single(I), 'string_deserialize', [arg(T('string'), 'x')]),
+                          # a static and an instance method of one name: the role of a routine follows the kind of member
+                          D.static(single(I), 'Reset', [arg(I, 'start')]),
+                          D.method(single(I), 'Reset', [arg(I, 'start'), arg(I, 'step')], 1),
                           D.prop(I, 'value')])]
     if k == 'ns':
         C = 'Nc' + s
